@@ -89,7 +89,7 @@ PROPS = {
                           thm("C08_reset_all", "P_C08"), thm("C08_restart", "P_C08"),
                           thm("canonical_components", "MockCheck"),
                           thm("method_region_closed", "TmplRegion_method"), thm("accessor_region_closed", "TmplRegion_accessor"), thm("reset_region_closed", "TmplRegion_reset")]),
-    "C09": dict(kind="gen", files=["P_C09.v", "P_C02.v", "P_C20.v"], theorems=[thm("C09_tparams_shape", "P_C09"), thm("C09_tparams_count", "P_C09"), thm("C09_instances", "P_C09"), thm("C09_explicit_constraint", "P_C09"), thm("C09_tparam_names_verbatim", "P_C09"), thm("C09_comparable_fixed", "P_C09"), thm("C09_explicit_wins", "P_C09"), thm("C09_selfcheck_refuted", "P_C09")], oracle=O.o_c09,
+    "C09": dict(kind="gen", files=["P_C09.v", "P_C02.v", "P_C20.v", "P_C09_whole.v", "C09Run_Proofs.v"], theorems=[thm("C09_whole_run_tparams", "P_C09_whole"), thm("C09_whole_run_count", "P_C09_whole"), thm("C09_whole_run_example", "P_C09_whole"), thm("C09_tparams_shape", "P_C09"), thm("C09_tparams_count", "P_C09"), thm("C09_instances", "P_C09"), thm("C09_explicit_constraint", "P_C09"), thm("C09_tparam_names_verbatim", "P_C09"), thm("C09_comparable_fixed", "P_C09"), thm("C09_explicit_wins", "P_C09"), thm("C09_selfcheck_refuted", "P_C09")], oracle=O.o_c09,
                 known=["self_check_not_instantiable", "constraint_unqualified_printer",
                        "walk_incomplete", "tparams_clash", "names_tparams", "not_a_method_set_interface",
                        "mock_name_twice", "method_name_clash", "unexported_foreign"]),
